@@ -97,7 +97,7 @@ Proof. exact acct_nonvacuous. Qed.
 
 (* The same with defragmentation: reachDA = states reachable when defragmentation runs (Begin / pass / End with
    any copy-ignore-destroy decisions / Finish, any fault oracle) are interleaved with API calls between passes
-   (passes on lists of granularity 1; at most 2^22 Allocation objects incl. the temporaries of a pass). *)
+   (any bufferImageGranularity; at most 2^22 Allocation objects incl. the temporaries of a pass). *)
 Theorem C04_allocator_budget_equals_truth_defrag : forall c v run,
   cfg_acct c -> VamDefragAcct.reachDA c v run ->
   (forall h, heaps (m_bud (v_m v)) h = mkHc (dev_count c v h) (alloc_count c v h) (dev_bytes c v h) (alloc_bytes c v h)) /\
